@@ -162,7 +162,7 @@ Fixpoint num_f (base : N) (fuel : nat) (n : N) : bytes :=
   | S f => (if n <? base then [] else num_f base f (n / base)) ++ [48 + n mod base]
   end.
 (* enough fuel: a number has no more digits than bits *)
-Definition num (base n : N) : bytes := num_f base (S (N.size_nat n)) n.
+Definition num (base n : N) : bytes := num_f base (S (N.to_nat (N.log2 n))) n.
 Definition dec : N -> bytes := num 10.
 Definition oct : N -> bytes := num 8.
 
